@@ -16,6 +16,7 @@ import (
 	"golang.org/x/tools/go/ssa"
 	ah "mvdan.cc/garble/internal/asthelper"
 	"mvdan.cc/garble/internal/ssa2ast"
+	"mvdan.cc/garble/internal/verifhook"
 )
 
 const (
@@ -234,6 +235,7 @@ func Obfuscate(fset *token.FileSet, ssaPkg *ssa.Package, files []*ast.File, obfR
 		for _, anonFunc := range ssaFunc.AnonFuncs {
 			dispatchers = append(dispatchers, applyObfuscation(anonFunc)...)
 		}
+		verifhook.Event("cf.func", "name", ssaFunc.Name(), "splits", split, "junk", junkCount, "passes", passes, "hardening", strings.Join(flattenHardening, ","), "trash", trashBlockCount, "blocks", len(ssaFunc.Blocks), "dispatchers", len(dispatchers), "anon", len(ssaFunc.AnonFuncs))
 
 		// Because of ssa package api limitations, implementation of hardening for control flow flattening dispatcher
 		// is implemented during converting by replacing key values with obfuscated ast expressions
